@@ -118,6 +118,9 @@ class Multiplication:
         lc.from_segment = clone_name
       if lc.to_segment == segment.name:
         lc.to_segment = clone_name
+      if lc.record_type == "E" and not gfapy.is_placeholder(lc.eid):
+        # identifiers are unique: the copy of a named edge is unnamed
+        lc.eid = gfapy.Placeholder()
       lc.connect(self)
 
   LINKS_DISTRIBUTION_POLICY = ["off", "auto", "equal", "L", "R"]
